@@ -601,6 +601,10 @@ func init() {
 		case "named":
 			evs, n := namedDag(p[1])
 			if evs == nil {
+				if strings.Contains(p[1], "~") {
+					res.Counters["deviations_not_applicable"]++
+					break
+				}
 				return nil, fmt.Errorf("unknown named DAG %s", p[1])
 			}
 			checkDag(evs, n, it, res, it.Source)
@@ -685,6 +689,11 @@ func init() {
 			{Source: "named:funkystacked", Variants: []string{"orders", "batch", "cuts", "cache"}, Level: 1, Static: true},
 			{Source: "named:coinround", Variants: []string{"orders", "batch", "cuts"}, Level: 1, Static: true},
 		}})
+		var coinDev []DagItem
+		for k := 4; k < 76; k++ {
+			coinDev = append(coinDev, DagItem{Source: fmt.Sprintf("named:coinround~%d", k), Variants: []string{"orders", "cuts"}, Level: lvl, Static: true})
+		}
+		phases = append(phases, phase{"single-event deviations of the coin-round DAG (event k sees a one-step older event of its other-parent's creator, k=4..75), orders and cuts", coinDev})
 		// (b) harvested DAGs
 		var hv []DagItem
 		for _, s := range []string{scStatic3, scStatic4, scSilent4, scLate4, scSilent5} {
@@ -695,7 +704,7 @@ func init() {
 		}
 		phases = append(phases, phase{"final DAGs of the 8 E1 seeds (static: all variants; dynamic: orders, store, cache, cuts)", hv})
 		var hd []DagItem
-		stride := 6
+		stride := 9
 		if th {
 			stride = 2
 		}
